@@ -324,6 +324,7 @@ C01Why(e) ==
     ELSE IF e.decerr # "none" /\ e.in.root.k # "error" THEN "decerr"
     ELSE IF C01Tol(e, {"bigfloat-precision"}) THEN "bigfloat-precision"
     ELSE IF C01Tol(e, {"long-wrap"}) THEN "long-wrap"
+    ELSE IF C01Tol(e, {"bigfloat-precision", "long-wrap"}) THEN "bigfloat-precision+long-wrap"
     ELSE "mismatch"
 
 \* C02: reference mode on shared and cyclic graphs
